@@ -882,12 +882,14 @@ async fn run_tls_client(sc: &Scenario, sink: &Sink) {
             });
             let req_done = tokio::time::timeout(Duration::from_millis(2500), reqt).await;
             let req_ms = t0.elapsed().as_millis() as u64;
+            // what the listener has been told while the handshake is stalled (no connection exists yet)
+            let state_during_stall = states.lock().unwrap().last().cloned().unwrap_or_default();
             let _ = channel.shutdown().await;
             let mut task = task;
             let ended = tokio::time::timeout(Duration::from_millis(2500), &mut task).await.is_ok();
             sink.emit(json!({"e":"tlsc_stall","request_completed":req_done.is_ok(),
                 "request_result": match &req_done { Ok(Ok(r)) => format!("{r:?}").split('(').next().unwrap_or("").to_string(), _ => "pending".to_string() },
-                "request_ms":req_ms,"task_ended_after_shutdown":ended}));
+                "request_ms":req_ms,"task_ended_after_shutdown":ended,"state_during_stall":state_during_stall}));
             if !ended {
                 task.abort();
             }
